@@ -56,9 +56,10 @@ fn unfinished_step_case(i: u64, rng: &mut Rng) -> CaseOut {
     let reset_at = lines.len();
     let mut resumes = Vec::new();
     for _ in 0..1 + rng.below(3) {
-        resumes.push(match rng.below(4) {
+        resumes.push(match rng.below(5) {
             0 => "step".to_string(),
             1 => format!("si {}", 1 + rng.below(4)),
+            2 => "step out".to_string(),
             _ => "continue".to_string(),
         });
     }
@@ -268,10 +269,11 @@ fn one_case(seed: u64, i: u64) -> CaseOut {
     if full_run {
         // resume in different ways before detaching: with the debugger still attached for a while
         // (continue / step / step into k), or at once; every way ends like a fresh run
-        let resume = match rng.below(5) {
+        let resume = match rng.below(6) {
             0 => Some("continue".to_string()),
             1 => Some(format!("si {}", 1 + rng.below(6))),
             2 => Some("step".to_string()),
+            3 if stack => Some("step out".to_string()),
             _ => None,
         };
         if let Some(r) = &resume {
@@ -423,8 +425,7 @@ fn one_case(seed: u64, i: u64) -> CaseOut {
                         "final registers/PC/CC {:04X?} x{:04X} {:03b}, fresh run {:04X?} x{:04X} {:03b}",
                         sess.fin.reg, sess.fin.pc, sess.fin.cc, pfs.reg, pfs.pc, pfs.cc
                     ));
-                } else if !cfg!(miri) && hash_words(&mem[..]) != pfs.mem_hash {
-                    // (under Miri the recorded diffs only cover address windows, see dbgmon::diff_mem)
+                } else if hash_words(&mem[..]) != pfs.mem_hash {
                     why = Some("final memory differs from a fresh run".to_string());
                 }
                 if let Some(w) = why {
